@@ -20,21 +20,22 @@ class Injected(Exception):
 
 
 class Emitter:
+    """Sequence numbers come from a counter file updated under flock with ONE fixed-width pwrite (a process that is
+    killed while it holds the flock leaves either the old or the new number, never an empty file)."""
     def __init__(self, d: Path, pid: str):
-        self.seqf = open(d / "seq", "r+")
+        self.fd = os.open(d / "seq", os.O_RDWR)
         self.log = open(d / f"{pid}.ndjson", "a")
         self.pid = pid
 
     def __call__(self, ev, **kw):
-        fcntl.flock(self.seqf, fcntl.LOCK_EX)
+        fcntl.flock(self.fd, fcntl.LOCK_EX)
         try:
-            self.seqf.seek(0)
-            n = int(self.seqf.read() or "0") + 1
-            self.seqf.seek(0); self.seqf.truncate(); self.seqf.write(str(n)); self.seqf.flush()
+            n = int(os.pread(self.fd, 20, 0) or b"0") + 1
+            os.pwrite(self.fd, b"%020d" % n, 0)
             self.log.write(json.dumps({"seq": n, "pid": self.pid, "ev": ev, **kw}) + "\n")
             self.log.flush()
         finally:
-            fcntl.flock(self.seqf, fcntl.LOCK_UN)
+            fcntl.flock(self.fd, fcntl.LOCK_UN)
 
 
 def encoder(v):
@@ -49,11 +50,14 @@ from fasteners import InterProcessReaderWriterLock
 from molli._aux.lock import rwlock
 lk = InterProcessReaderWriterLock(rwlock(sys.argv[1]))
 print("ready", flush=True)
-for line in sys.stdin:
-    ok = lk.acquire_write_lock(timeout=float(line))
-    if ok:
-        lk.release_write_lock()
-    print("acquired" if ok else "timeout", flush=True)
+try:
+    for line in sys.stdin:
+        ok = lk.acquire_write_lock(timeout=float(line))
+        if ok:
+            lk.release_write_lock()
+        print("acquired" if ok else "timeout", flush=True)
+except (BrokenPipeError, KeyboardInterrupt):
+    pass                                  # the worker this prober belongs to is gone
 '''
 
 
@@ -76,7 +80,25 @@ class Prober:
             self.p.kill()
 
 
-def worker(d, lib_path, pid, nsess, seed, bufsize, barrier, faults, fresh=False):
+class TornStream:
+    """Stands in for the file object of a UKVFile: the n-th write() of the session writes only the first part of its
+    data and the process kills itself (what a crash in the middle of an append leaves on disk)."""
+    def __init__(self, real, call, frac):
+        self.__dict__.update(_real=real, _call=call, _frac=frac, _n=0)
+
+    def write(self, data):
+        self.__dict__["_n"] += 1
+        if self._n == self._call:
+            self._real.write(bytes(data)[:int(len(data) * self._frac)])
+            self._real.flush()
+            os.kill(os.getpid(), 9)
+        return self._real.write(data)
+
+    def __getattr__(self, name):
+        return getattr(self._real, name)
+
+
+def worker(d, lib_path, pid, nsess, seed, bufsize, barrier, faults, fresh=False, die=None):
     from molli.storage import Collection, UkvCollectionBackend
     rnd = random.Random(seed)
     emit = Emitter(Path(d), pid)
@@ -129,6 +151,9 @@ def worker(d, lib_path, pid, nsess, seed, bufsize, barrier, faults, fresh=False)
                 orig_write = lib._backend._write
                 with lib.writing(timeout=TO):
                     emit("WBegin", nkeys=len(lib.keys()))
+                    if die is not None and s >= die[0]:
+                        uk = lib._backend._ukvfile
+                        uk._stream = TornStream(uk._stream, die[1], die[2])
                     endfault = "none"
                     try:
                         calls = [0]
@@ -150,6 +175,7 @@ def worker(d, lib_path, pid, nsess, seed, bufsize, barrier, faults, fresh=False)
                             if mine and rnd.random() < 0.1:
                                 k = rnd.choice(mine)            # deliberate duplicate
                             v = None if (fault == "encoder" and j == nput - 1) else value_of(k)
+                            emit("WTry", k=k, vd=vd(v) if v is not None else "")
                             try:
                                 lib[k] = v
                                 out = "ok"
@@ -198,6 +224,7 @@ def worker(d, lib_path, pid, nsess, seed, bufsize, barrier, faults, fresh=False)
             break
         finally:
             if writer:
+                emit("WDone")          # the `with` block has been left: the session is over for this process
                 lib._backend._write = orig_write
                 # items left in the queue by a failed flush would be written by a later session; the
                 # session protocol (C04) says nothing about them, so they are dropped here
@@ -223,12 +250,12 @@ atexit.unregister(lib._backend.flush)
 '''
 
 
-def run_schedule(workdir: Path, nproc, nsess, seed, faults=True, timeout=300, fresh=False):
+def run_schedule(workdir: Path, nproc, nsess, seed, faults=True, timeout=300, fresh=False, kills=0, torn=0):
     """-> merged event list (ordered by seq) incl. the Final event from a fresh process."""
     from molli.storage import Collection, UkvCollectionBackend
     d = Path(workdir)
     d.mkdir(parents=True, exist_ok=True)
-    (d / "seq").write_text("0")
+    (d / "seq").write_bytes(b"%020d" % 0)
     # the library is reached through several spellings of its path (real, through a symlinked directory, with a
     # `..` component): the lock must be the same for all of them
     (d / "real").mkdir(exist_ok=True)
@@ -241,22 +268,59 @@ def run_schedule(workdir: Path, nproc, nsess, seed, faults=True, timeout=300, fr
     if not fresh:
         p0 = ctx.Process(target=_create, args=(str(lib_path),))
         p0.start(); p0.join(60)
-    barrier = ctx.Barrier(nproc)
+    mortal = bool(kills or torn)
+    barrier = ctx.Barrier(nproc + (1 if mortal else 0))
+    prnd = random.Random(seed ^ 0xDEAD)
+    # planned deaths: the worker writes only the first part of one write() of one of its sessions and kills itself
+    # (the process dies at a byte of an append session - C03 - while other processes carry on - C04)
+    torn_ids = prnd.sample(range(nproc), min(torn, nproc - 1))
+    plans = {i: (prnd.randint(2, max(2, nsess // 2)), prnd.randint(1, 6), prnd.choice([0.0, 0.3, 0.5, 0.9, 1.0])) for i in torn_ids}
     procs = []
     for i in range(nproc):
         buf = -1 if i % 2 == 0 else 100000
-        p = ctx.Process(target=worker, args=(str(d), str(spellings[i % 3]), f"p{i}", nsess, seed * 1000 + i, buf, barrier, faults, fresh))
+        p = ctx.Process(target=worker, args=(str(d), str(spellings[i % 3]), f"p{i}", nsess, seed * 1000 + i, buf, barrier, faults, fresh,
+                                             plans.get(i)))
         p.start(); procs.append(p)
     t0 = time.time()
     hung = False
+    victims = []
+    if mortal:
+        # SIGKILL some other workers at random moments of their run: the operating system releases their locks; the
+        # harness logs a Kill event as soon as it sees that a process is gone
+        from multiprocessing.connection import wait as mpwait
+        hemit = Emitter(d, "harness")
+        barrier.wait(120)              # the workers have built their handles and start their sessions now
+        others = [i for i in range(nproc) if i not in plans]
+        at, plan = 0.0, []
+        for i in prnd.sample(others, min(kills, max(0, len(others) - 1))):
+            at += prnd.uniform(0.03, 0.25)
+            plan.append((at, i))
+        t1 = time.time()
+        pending = {p.sentinel: (i, p) for i, p in enumerate(procs)}
+        while pending and time.time() - t0 < timeout:
+            wait_s = 0.5 if not plan else max(0.0, min(0.5, plan[0][0] - (time.time() - t1)))
+            for s in mpwait(list(pending), timeout=wait_s):
+                i, p = pending.pop(s)
+                p.join(5)
+                if p.exitcode == -9:
+                    victims.append(f"p{i}")
+                    hemit("Kill", victim=f"p{i}")
+            if plan and time.time() - t1 >= plan[0][0]:
+                _, i = plan.pop(0)
+                if procs[i].is_alive():
+                    os.kill(procs[i].pid, 9)
     for p in procs:
         p.join(max(1, timeout - (time.time() - t0)))
         if p.is_alive():
             hung = True
             p.kill()
     events = []
-    for f in d.glob("p*.ndjson"):
-        events += [json.loads(x) for x in f.read_text().splitlines() if x.strip()]
+    for f in list(d.glob("p*.ndjson")) + list(d.glob("harness.ndjson")):
+        for x in f.read_text().splitlines():
+            try:
+                events.append(json.loads(x))
+            except ValueError:
+                pass           # the last line of a killed process may be cut short
     events.sort(key=lambda e: e["seq"])
     env = dict(os.environ)
     try:
@@ -267,6 +331,8 @@ def run_schedule(workdir: Path, nproc, nsess, seed, faults=True, timeout=300, fr
     events.append({"seq": (events[-1]["seq"] + 1) if events else 1, "pid": "final", "ev": "Final", **fin})
     if hung:
         events.append({"seq": events[-1]["seq"] + 1, "pid": "harness", "ev": "Hung"})
+    if mortal:
+        return events, victims
     return events
 
 
